@@ -188,6 +188,12 @@ package octosql
 
 // TypeIntersection accumulates the fitting primitive alternatives; a non-fitting alternative never changes the
 // accumulated result (the accumulator must not alias the loop variable).
+// trusted: the flattening helper returns well-formed types (its proof needs validity to survive a variadic append
+// of unknown length, which the solvers do not discharge; it is assumed at TypeIntersection's call sites and listed)
+//@ func Type.possiblePrimitiveTypes
+//@   trusted
+//@   requires validT(t)
+//@   ensures valid: forall(j, 0, len(result), validT(result[j]))
 //@ func TypeIntersection
 //@   requires validT(t1) && validT(t2)
 //@   loop 1 step stable: old(outputType) != nil && rel(t, t2) != 2 ==> outputType == old(outputType) && deref(outputType).TypeID == old(deref(outputType).TypeID)
